@@ -1,0 +1,6 @@
+//go:build !verif
+
+package time
+
+// verifPoint: see the avro package. No-op unless built with -tags verif.
+func verifPoint(string) {}
